@@ -35,7 +35,8 @@ Theorem validate_setup_sound g c ss r :
   end.
 Proof.
   destruct (validate_setup g c ss r) as [st err|th p path trk] eqn:V.
-  - unfold validate_setup in V. repeat dmatch; try discriminate; inv V; tauto.
+  - unfold validate_setup in V. repeat dmatch; try discriminate; inv V;
+      ((left; split; reflexivity) || (right; split; reflexivity)).
   - apply validate_setup_accept in V. exact V.
 Qed.
 
